@@ -20,6 +20,7 @@ pub mod c22;
 pub mod c24;
 pub mod c25;
 pub mod c27;
+pub mod c28;
 pub mod c31;
 pub mod c32;
 
@@ -48,6 +49,7 @@ pub fn dispatch(id: &str, args: &Args) -> i32 {
         "C24" => drive_main(&c24::C24, args),
         "C25rs" => drive_main(&c25::C25rs, args),
         "C27" => drive_main(&c27::C27, args),
+        "C28" => drive_main(&c28::C28, args),
         "C31" => drive_main(&c31::C31, args),
         "C32" => drive_main(&c32::C32, args),
         "C33" => drive_main(&c33::C33, args),
